@@ -2,7 +2,7 @@ SPECIFICATION Spec
 CONSTANTS
   Quirks = {}
   Kind = "native"
-  ShapeSet = "odd"
+  ShapeSet = "quick"
   Strategies = {"simple", "basic", "append", "append_rev"}
   NameMode = "fresh"
   NamePool = 0
@@ -10,7 +10,7 @@ CONSTANTS
   AllowBad = FALSE
   MaxData = 6
   MaxVariants = 4
-  MaxAddsPerVariant = 5
+  MaxAddsPerVariant = 4
   CheckConvert = FALSE
 VIEW ViewCurrent
 INVARIANTS TypeOK NoOverlap Placed Aligned NonZstStrictlyIncreasing WithinCapacity RecordAlignCoversAll AddressOrdered IdsNeverReused NamesUniquePerVariant TotalOnAccepted ConvertInv
